@@ -22,6 +22,18 @@ use xs::store::Store;
 use crate::wire::*;
 
 #[derive(Debug, Serialize, Deserialize, Clone)]
+#[serde(tag = "kind")]
+pub enum ClientOp {
+    Append { spec: FrameSpec, content: Option<String> },
+    Import { line: String },
+    Remove { id: String },
+    Get { id: String },
+    Cat { opts: ROpts, sse: bool },
+    CasPost { content: String },
+    Version,
+}
+
+#[derive(Debug, Serialize, Deserialize, Clone)]
 #[serde(tag = "op")]
 pub enum Cmd {
     Ping,
@@ -79,6 +91,10 @@ pub enum Cmd {
     FollowPause {
         h: u32,
         paused: bool,
+    },
+    /// one operation through the `xs::client` library against this executor's own API socket
+    Client {
+        call: ClientOp,
     },
     FollowPoll {
         h: u32,
@@ -411,6 +427,59 @@ impl Executor {
                 }
                 None => err("no such follower"),
             },
+            Cmd::Client { call: op } => {
+                use base64::Engine as _;
+                let b64e = |b: &[u8]| base64::engine::general_purpose::STANDARD.encode(b);
+                let b64d = |s: &str| base64::engine::general_purpose::STANDARD.decode(s).unwrap_or_default();
+                let addr = self.store.path.to_string_lossy().to_string();
+                let res: Result<Vec<u8>, String> = self.rt.block_on(async move {
+                    let to = Duration::from_secs(30);
+                    let r = tokio::time::timeout(to, async {
+                        match op {
+                            ClientOp::Append { spec, content } => {
+                                let meta = spec.meta.as_ref().map(|m| m.to_json()).filter(|m| !m.is_null());
+                                let ttl = spec.ttl.as_ref().map(|t| t.to_xs());
+                                let ctx = if spec.ctx == 0 { None } else { Some(scru128::Scru128Id::from(spec.ctx).to_string()) };
+                                let data = content.map(|c| b64d(&c)).unwrap_or_default();
+                                xs::client::append(&addr, &spec.topic, std::io::Cursor::new(data), meta.as_ref(), ttl, ctx.as_deref())
+                                    .await
+                                    .map(|b| b.to_vec())
+                                    .map_err(|e| e.to_string())
+                            }
+                            ClientOp::Import { line } => xs::client::import(&addr, std::io::Cursor::new(line.into_bytes()))
+                                .await
+                                .map(|b| b.to_vec())
+                                .map_err(|e| e.to_string()),
+                            ClientOp::Remove { id } => xs::client::remove(&addr, &id).await.map(|_| Vec::new()).map_err(|e| e.to_string()),
+                            ClientOp::Get { id } => xs::client::get(&addr, &id).await.map(|b| b.to_vec()).map_err(|e| e.to_string()),
+                            ClientOp::Cat { opts, sse } => match xs::client::cat(&addr, opts.to_xs(), sse).await {
+                                Ok(mut rx) => {
+                                    let mut out = Vec::new();
+                                    while let Some(b) = rx.recv().await {
+                                        out.extend_from_slice(&b);
+                                    }
+                                    Ok(out)
+                                }
+                                Err(e) => Err(e.to_string()),
+                            },
+                            ClientOp::CasPost { content } => xs::client::cas_post(&addr, std::io::Cursor::new(b64d(&content)))
+                                .await
+                                .map(|b| b.to_vec())
+                                .map_err(|e| e.to_string()),
+                            ClientOp::Version => xs::client::version(&addr).await.map(|b| b.to_vec()).map_err(|e| e.to_string()),
+                        }
+                    })
+                    .await;
+                    match r {
+                        Ok(x) => x,
+                        Err(_) => Err("client call timed out (30 s)".to_string()),
+                    }
+                });
+                match res {
+                    Ok(body) => ok(json!({"body": b64e(&body)})),
+                    Err(e) => ok(json!({"error": e})),
+                }
+            }
             Cmd::ServeApi => {
                 let store = self.store.clone();
                 let engine = self.engine();
